@@ -344,7 +344,44 @@ def part_newline(ctx, eng):
         want_keep = z3.And(cur.e != LF, z3.Not(z3.And(cur.e == CR, has_next, nxt.e == LF)), z3.BoolVal(len(chars) == 1), *([same(chars[0])] if len(chars) == 1 else [z3.BoolVal(False)]))
         ctx.prop('windows/p%d/changes-nothing-but-terminators' % pi, o.state.pc, z3.Not(z3.Or(want_lf, want_drop, want_keep)), mv, rp)
     eng.stubs = []
+    # in addition to the one-step harness: the whole function over symbolic short texts (composition of the steps, first and last iteration)
+    mark = len(ctx.obls)
+    try:
+        part_windows_whole(ctx, eng, cw, rp, 3 if ctx.tier == 'quick' else 4)
+    except (Unsupported, Inconclusive) as e_:
+        del ctx.obls[mark:]
+        eng.stubs = []
+        ctx.notes.append('convert_to_windows_newlines as a whole function: not executable here (%s); the one-step harness decides' % str(e_)[:100])
     part_newline_rest(ctx, eng, rp)
+
+
+def replay_windows_text(model, r):
+    """the text of the counterexample is put inside a raw string literal (copied verbatim by the formatter): the Windows output must be the Unix
+    output with every LF replaced by CR LF"""
+    bins = ensure_bins()
+    rf = os.path.join(bins, 'rustfmt')
+    d = os.path.join(BUILD, 'scratch', 'c08w-%d' % os.getpid())
+    shutil.rmtree(d, ignore_errors=True)
+    os.makedirs(d)
+    ks = sorted((int(k[1:]), v) for k, v in (model or {}).items() if re.fullmatch(r't\d+', k) and isinstance(v, int))
+    texts = []
+    if ks:
+        t = ''.join(chr(v) if (v in (9, 10, 32) or (33 <= v < 127 and chr(v) not in '"#\\')) else 'x' for _, v in ks)
+        texts.append(t)
+    texts += ['a \nb', 'a\t\n', ' \n \n', 'a\n\nb  \n']
+    found = []
+    for t in texts:
+        src = 'fn main() {\n    let s = r#"A%sB"#;\n}\n' % t
+        p_ = os.path.join(d, 'x.rs')
+        open(p_, 'w', newline='').write(src)
+        outs = {}
+        for style in ('Unix', 'Windows'):
+            pr = subprocess.run([rf, '--emit', 'stdout', '--quiet', '--config', 'newline_style=%s' % style, p_], capture_output=True, env=run_env(), timeout=60, cwd=d)
+            outs[style] = pr.stdout
+        if outs['Windows'] != outs['Unix'].replace(b'\n', b'\r\n'):
+            found.append('text %r inside a raw string: the Windows output is not the Unix output with CR LF terminators (%r vs %r)' % (t, outs['Windows'][:80], outs['Unix'][:80]))
+    shutil.rmtree(d, ignore_errors=True)
+    return {'reproduced': bool(found), 'detail': found[:3]}
 
 
 def part_windows_whole(ctx, eng, cw, rp, N):
@@ -389,7 +426,7 @@ def part_windows_whole(ctx, eng, cw, rp, N):
                     if len(got) == len(exp) == 0:
                         same = z3.BoolVal(True)
                     nob += 1
-                    ctx.prop(tag + '/c%d/changes-nothing-but-terminators' % nob, s2.pc, z3.Not(same), mv, rp, twin=False)
+                    ctx.prop(tag + '/c%d/changes-nothing-but-terminators' % nob, s2.pc, z3.Not(same), mv, replay_windows_text, twin=False)
         eng.stubs = []
     if not nob:
         raise Inconclusive('convert_to_windows_newlines(whole): nothing explored')
